@@ -61,6 +61,8 @@ type ScriptCase struct {
 	// Drain: after the script, answer all remaining requests (pick 0) and
 	// expect completion iff the model is done.
 	Drain bool `json:"drain"`
+	// DrainAns, if set, is the answer given by the drain (default: plain ok).
+	DrainAns *model.Answer `json:"drainAns,omitempty"`
 	// PreStart events are delivered before StartAll, Early events right after
 	// StartAll returned without waiting for the instance to settle. Both must be
 	// events that match no catch event of the program (their effect would
@@ -518,7 +520,7 @@ func RunScript(c *ScriptCase) *ScriptOutcome {
 	if c.Drain {
 		for guard := 0; len(m.Pending) > 0 && guard < 200; guard++ {
 			// skip interrupted requests' answers? they are no-ops in the model and must be in the engine
-			if r := runStim(Stim{Kind: "answer", Pick: 0}); r != nil {
+			if r := runStim(Stim{Kind: "answer", Pick: 0, Ans: c.DrainAns}); r != nil {
 				return r
 			}
 		}
